@@ -18,7 +18,7 @@ for pid in ids:
     r = subprocess.run([os.environ.get('GOVC_BIN', './bin/govc'), 'check', '--property', pid, '-v'], env=env, capture_output=True, text=True)
     status = {}  # (func, kind) -> [n, failed]
     for l in r.stderr.split('\n'):
-        m = re.match(r'^(discharged|failed-\S+)\s+\d+ms\s+\d+\s+\S+\s+(\S+)$', l)
+        m = re.match(r'^(discharged|failed-\S+)\s+\d+ms\s+\d+\s+(?:\S+\s+)?(pkg/\S+)$', l)
         if not m:
             continue
         name = m.group(2)
